@@ -110,6 +110,10 @@ def other_requests(kind: str) -> List[List[Any]]:
         ]
     if kind == "switch":
         return [["network_interface", 1, "disable"], ["network_interface", 1, "enable"], ["os", "scan"], ["scan"], ["startup"]]
+    rule = ["DENY", "ALL", "ALL", "NONE", "ALL", "ALL", "NONE", "ALL"]
+    acl = ([["internal", "inbound", "acl", "add_rule"] + rule + [3], ["external", "outbound", "acl", "remove_rule", 3],
+            ["dmz", "inbound", "acl", "add_rule"] + rule + [4]] if kind == "firewall" else
+           [["acl", "add_rule"] + rule + [3], ["acl", "remove_rule", 3]])
     return [
         ["network_interface", 1, "disable"],
         ["network_interface", 1, "enable"],
@@ -118,7 +122,7 @@ def other_requests(kind: str) -> List[List[Any]]:
         ["service", "terminal", "start"],
         ["file_system", "create", "folder", "vf"],
         ["startup"],
-    ]
+    ] + acl
 
 
 def run_behaviour(cnt: Counter, kind: str, up: int, down: int, beh: List[Dict[str, Any]], rng: random.Random):
@@ -173,6 +177,15 @@ def run_behaviour(cnt: Counter, kind: str, up: int, down: int, beh: List[Dict[st
                 trace["stimulus"]["actions"].append(tail)
                 r = req(list(tail))
                 emit("ReqOther", "/".join(str(x) for x in tail), getattr(r, "status", None) == "success")
+                if dut.operating_state.name != "ON":
+                    # ... and while the node is not on, EVERY request name its own table offers (bare: a node that is not on
+                    # turns a request away before any handler looks at its parameters), start-up excepted
+                    for name in sorted(str(k) for k in dut._request_manager.request_types):
+                        if name == "startup":
+                            continue
+                        trace["stimulus"]["actions"].append([name])
+                        r = req([name])
+                        emit("ReqOther", name, getattr(r, "status", None) == "success")
             elif a == "MFrame":
                 target = rng.choice([x for x in (info["dut_ip"], info["far_ip"]) if x])
                 trace["stimulus"]["actions"].append(["frame_in", target])
